@@ -28,6 +28,7 @@ Next ==
   \/ \E c \in ExitCodes : ChildExit(1, c)
   \/ ChildDie(1)
   \/ ChildCloseX(1)
+  \/ Interrupt
 
 Spec == Init /\ [][Next]_vars
 
